@@ -42,8 +42,8 @@ Theorem C02_null_rules :
   (forall tm w f e cur, decode tm w (S f) (GPtr e) JNull cur = Ok VNilPtr)
   /\ (forall tm w f e cur, decode tm w (S f) (GSlice e) JNull cur = Ok VNilSlice)
   /\ (forall tm w f i cur, decode tm w (S (S f)) (GIface i) JNull cur = Ok cur)
-  /\ (forall k cur, decode_scalar k JNull cur = Ok cur).
-Proof. repeat split; reflexivity. Qed.
+  /\ (forall k cur, decode_scalar k JNull cur = Ok (match k with KAny => VZero (* nil map *) | _ => cur end)).
+Proof. repeat split; try reflexivity. exact null_into_scalar. Qed.
 Print Assumptions C02_null_rules.
 
 (* PARTIAL / REFUTED part of the statement: "nulls become nil slices" is false for a list of
@@ -65,6 +65,6 @@ Print Assumptions C02_null_list_mechanism.
 Theorem C02_witness :
   decode w_tm true 10 (GStruct (b "QResponse")) w_resp_two (VStruct (b "QResponse") [])
   = Ok (VStruct (b "QResponse") [(b "Items", VSlice [VIface (b "QItemsB") (VStruct (b "QItemsB") [(b "Typename", VScalar (JStr (b "B")))]);
-                                                     VIface (b "QItemsA") (VStruct (b "QItemsA") [(b "Id", VScalar (JStr (b "7"))); (b "Typename", VScalar (JStr (b "A")))])])]).
+                                                     VIface (b "QItemsA") (VStruct (b "QItemsA") [(b "Typename", VScalar (JStr (b "A"))); (b "Id", VScalar (JStr (b "7")))])])]).
 Proof. exact w_two_ok. Qed.
 Print Assumptions C02_witness.
